@@ -41,6 +41,13 @@
 // waiting for its own listener to accept the connection; third attempt with the roles swapped). Part of the
 // runs adds UDP loss (5% / 15%), duplication and per-datagram latency (reordering); these faults stop before
 // the closing phase. All layer-A/B oracles apply unchanged; additionally no UDP socket may survive the nodes.
+// In a third of the QUIC runs each, A's / B's connection gater (the recording gater, scripted) refuses the
+// peer's INBOUND direct connections at InterceptAccept or at InterceptSecured(DirInbound) — never outbound dials,
+// never relayed connections — from the start or from the moment the first relayed connection to the peer is
+// admitted (an inbound allow-list that does not name the peer). The gater also yields the ground truth for
+// "this direct connection exists": every direct connection a swarm admits (InterceptUpgraded) must have passed that
+// node's InterceptSecured before; one that has not (admitted count > passed count) never existed for the purposes
+// of the oracles below, whatever the swarm briefly listed.
 // (A TCP listener next to the QUIC one is not modelled: simnet's partition predicate cannot tell TCP from UDP
 // on the same port.)
 //
@@ -76,6 +83,8 @@
 //	holepunch-coordinated-over-direct-conn            StartHolePunch after a /libp2p/dcutr stream on a non-relayed connection (wrapped wiring)
 //	holepunch-coordinated-without-relayed-conn        StartHolePunch on a node that never had a relayed connection to the peer
 //	holepunch-success-without-direct-conn             EndHolePunch(success) with no direct connection open during the attempt
+//	force-direct-success-with-dead-conn/<api>         force-direct DialPeer / Host.Connect succeeded on a connection the node's own gater had refused
+//	waiter-woken-without-direct-conn                  ErrLimitedConn where every direct connection admitted during the call had been refused by A's gater
 //	direct-dial-success-without-direct-conn           DirectDial(success) likewise
 //
 // Opening the dcutr stream on a direct connection is legal for the initiator (it happens on the
@@ -106,6 +115,9 @@
 //	holePunchConnect without force-direct                             holepunch-success-without-direct-conn (+ holepunch-connect-without-force-direct)
 //	hole puncher's first direct dial without force-direct             direct-dial-success-without-direct-conn
 //
+// QUIC listener hands an accepted connection to a pending hole punch BEFORE the inbound gater check (seeded, run through
+// ./check with VERIF_REPO): holepunch-success-without-direct-conn on all 8 workers (the refused-yet-admitted connection
+// shows up in ~1.2% of all runs).
 // Re-checked through the QUIC stratum only (C12_LAYER=Q, 3 workers): holePunchConnect swallows the error
 // (holepunch-success-without-direct-conn, 5 s), bestAcceptableConnToPeer ignores force-direct
 // (direct-dial-success-without-direct-conn, 3 s), receiver accepts a dcutr stream on a direct connection
